@@ -304,6 +304,32 @@ Next == x' = x
             if not np.array_equal(np.roll(g1, tuple(int(s) for s in sh), axis=(0, 1, 2)), g2):
                 chk.violation(f'{kind}-roll', f'{kind}: shifting particles by {sh.tolist()} cells does not roll the grid', dict(fn='roll', kind=kind, ms=ms.tolist(), shift=sh.tolist()))
         chk.part('S5_roll', runs=nrun[0])
+        # ---- S6: no particles at all: the supplied grid is returned unchanged, whatever the thread / partition settings
+        for kind, (shape, box) in (('TSC', SHAPES['TSC'][0]), ('TSC', SHAPES['TSC'][-1]), ('CIC', SHAPES['CIC'][0])):
+            base0 = rng.integers(0, 4, shape).astype(np.float64) * 0.25
+            for pdt in (np.float32, np.float64):
+                empty = np.zeros((0, 3), dtype=pdt)
+                outs = []
+                try:
+                    if kind == 'TSC':
+                        g = base0.copy()
+                        _tsc_scatter(empty, g, box)
+                        outs.append(('_tsc_scatter', g))
+                        for nthread, nparts in ((1, None), (4, None), (2, 2), (1, 3)):
+                            for hw in (False, True):
+                                outs.append((f'tsc_parallel nthread={nthread} npartition={nparts} weights={hw}', supplied(empty.copy(), base0.copy(), box, weights=(np.zeros(0, dtype=pdt) if hw else None), nthread=nthread, npartition=nparts)))
+                    else:
+                        g = base0.copy()
+                        cic_serial(empty, g, box)
+                        outs.append(('cic_serial', g))
+                except Exception as e:  # noqa
+                    chk.violation(f'{kind}-empty-raises', f'{kind} deposit of an empty particle set on a {shape} grid ({np.dtype(pdt).name}): {type(e).__name__}: {e}', dict(fn='empty', kind=kind, shape=list(shape)))
+                    continue
+                for nm, g in outs:
+                    nrun[0] += 1
+                    if g.shape != base0.shape or not np.array_equal(np.asarray(g, dtype=np.float64), base0):
+                        chk.violation(f'{kind}-empty-changes-grid', f'{nm} with no particles changed the supplied {shape} grid', dict(fn='empty', kind=kind, shape=list(shape)))
+        chk.part('S6_empty', runs=nrun[0])
     chk.add_cases(nrun[0], nontrivial=nrun[1], traces=nrun[0])
     chk.sample(dict(kind='TSC', g=4, o=0, m=6, expected_cells_x4Q2=orc.rows[('TSC', 4, 0, 6)].tolist()))
     chk.sample(dict(kind='CIC', g=3, o=0, m=12, expected_cells_xQ=orc.rows[('CIC', 3, 0, 12)].tolist()))
